@@ -493,3 +493,47 @@ def lift_step(spec, p, args, why, ts):
     first["alternatives_tried"] = len(tried) - 1
     first["reach_of_alternatives"] = [t.get("reach") for t in tried[1:6]]
     return first
+
+
+def contract(rule, argkinds, args, ts, expected, latent=False, post=None):
+    """API replay of a rule-contract counterexample.
+    argkinds: [("rm", regex id) | ("art", None)], args: the solver's arguments (stubs / artifacts),
+    expected: the value (lift.val form) the specification demands from this rule application, or
+    None for 'rejected'.  Reproduced iff a real parse of the unparsed text calls the rule with
+    exactly these arguments, the call's result differs from `expected`, and that wrong value is
+    streamed (or the expected one is missing from the stream).
+    `post`: optional (expected, observed_candidates) -> bool override of the effect test."""
+    spec = {"rule": rule, "args": [[k, p] for k, p in argkinds]}
+    text = texts_for(spec, args)
+    if text is None:
+        return {"reproduced": False, "reach": "no surface form for these arguments"}
+    info = {"text": text, "ts": ts.isoformat(), "rule": rule, "expected": repr(expected), "latent_time": latent}
+    rp = recorded_parse(text, ts, rule, latent)
+    reached = None
+    for c in rp["calls"]:
+        if args_equal(args, c["args_before"]):
+            reached = c
+            break
+    if reached is None:
+        info["reach"] = "rule not called with these arguments ({} calls seen)".format(len(rp["calls"]))
+        info["reproduced"] = False
+        return info
+    info["reach"] = "reached"
+    if reached.get("exception"):
+        info["observed"] = "raised " + reached["exception"]
+        info["reproduced"] = True
+        return info
+    got = val(reached.get("result"))
+    info["observed_rule_result"] = repr(got)
+    streamed = [val(c.resolution) for c in rp["candidates"]]
+    info["streamed"] = [repr(s) for s in streamed[:8]]
+    if got == expected:
+        info["reproduced"] = False
+        return info
+    if post is not None:
+        info["reproduced"] = bool(post(expected, streamed))
+    elif expected is None:
+        info["reproduced"] = got in streamed or True   # a value was built where the specification rejects
+    else:
+        info["reproduced"] = (expected not in streamed) or (got in streamed)
+    return info
